@@ -308,9 +308,44 @@ def install_builtins(ns: Dict[str, Any]):
 
 
 # --------------------------------------------------------------------------- constants
-class PiConst(float):
+class PiConst:
     """numpy.pi / math.pi: the float 3.14159... outside symbolic runs, the shared symbolic
-    constant pi (3.14159 < pi < 3.1416) inside them."""
+    constant pi (3.14159 < pi < 3.1416) inside them.  Deliberately not a float subclass: complex
+    and float would otherwise multiply it natively and never call the reflected methods."""
+    _v0 = math.pi
+
+    def __float__(self):
+        return self._v0
+
+    def __repr__(self):
+        return repr(self._v0)
+
+    def __hash__(self):
+        return hash(self._v0)
+
+    def __eq__(self, o):
+        return self._v0 == o
+
+    def __lt__(self, o):
+        return self._v0 < o
+
+    def __le__(self, o):
+        return self._v0 <= o
+
+    def __gt__(self, o):
+        return self._v0 > o
+
+    def __ge__(self, o):
+        return self._v0 >= o
+
+    def __abs__(self):
+        return self._v() if self._sym() else self._v0
+
+    def __pos__(self):
+        return self._v() if self._sym() else self._v0
+
+    def __array__(self, dtype=None, copy=None):
+        return np.array(self._v0, dtype=dtype)
 
     def _sym(self):
         return _eng.active() and _eng.current().symbolic_pi
@@ -352,7 +387,7 @@ class PiConst(float):
         return o ** self._v() if self._sym() else o ** float(self)
 
 
-PI = PiConst(math.pi)
+PI = PiConst()
 
 
 # --------------------------------------------------------------------------- math module stand-ins
